@@ -114,6 +114,9 @@ def flush_model(ck):
             k += 1
             last = gi == len(cases) - 1
             impl_pc = "failed" if (last and kind == "exit") else "done"
+            if r.get("poll_mismatch"):
+                ck.disagreement("group %d: the tool polls its workers with other predicates / in another order than the model's handler" % gi, replay)
+                break
             if r["pc"] != impl_pc:
                 ck.disagreement("group %d: parent ended %s, model says %s" % (gi, impl_pc, r["pc"]), replay)
                 break
